@@ -2,13 +2,13 @@
 //! usage: vh pm <seed> <n> <tier> <mode>   with mode ∈ {k, c05, c06, c07}
 use crate::common::*;
 use spdcalc::dim::ucum::{DEG, K, M, MILLIW, RAD, S};
-use spdcalc::jsa::{jsa_raw, jsi_singles_raw, FrequencySpace, JointSpectrum};
+use spdcalc::jsa::{jsa_raw, jsi_singles_raw, FrequencySpace, IntoSignalIdlerIterator, JointSpectrum, SumDiffFrequencySpace, WavelengthSpace};
 use spdcalc::math::Integrator;
 use spdcalc::phasematch::{
   fwhm_to_spectral_width, get_pm_integrand, jsi_normalization, jsi_singles_normalization,
   phasematch_fiber_coupling, phasematch_singles_fiber_coupling, pump_spectral_amplitude,
 };
-use spdcalc::utils::{from_celsius_to_kelvin, vacuum_wavelength_to_frequency, Steps2D};
+use spdcalc::utils::{from_celsius_to_kelvin, frequency_to_vacuum_wavelength, vacuum_wavelength_to_frequency, Steps2D};
 use spdcalc::beam::{Beam, BeamWaist, IdlerBeam, PumpBeam, SignalBeam};
 use spdcalc::{
   Apodization, Complex, CrystalSetup, CrystalType, Frequency, JsiNorm,
@@ -392,7 +392,7 @@ fn describe(spdc: &SPDC) -> String {
     ),
   };
   format!(
-    "pols={}{}{} crystal={} pm={} ctheta={:.10} cphi={:.10} L={:e} T={:.4} lp={:.9e} ls={:.9e} li={:.9e} phis={:.10} thetas={:.10} phii={:.10} thetai={:.10} ws={:e} wi={:e} wpx={:e} wpy={:e} z0s={:e} z0i={:e} period={} apod={} bw={:e} power={:e} deff={:e} thr={:e}",
+    "pols={}{}{} crystal={} pm={} ctheta={:.10} cphi={:.10} L={:e} T={:.4} lp={:.9e} ls={:.9e} li={:.9e} phis={:.10} thetas={:.10} phii={:.10} thetai={:.10} ws={:e} wi={:e} wsy={:e} wiy={:e} wpx={:e} wpy={:e} z0s={:e} z0i={:e} period={} apod={} bw={:e} power={:e} deff={:e} thr={:e}",
     pol_char(spdc.pump.polarization()),
     pol_char(spdc.signal.polarization()),
     pol_char(spdc.idler.polarization()),
@@ -411,6 +411,8 @@ fn describe(spdc: &SPDC) -> String {
     spdc.idler.theta_internal().value_unsafe,
     spdc.signal.waist().x.value_unsafe,
     spdc.idler.waist().x.value_unsafe,
+    spdc.signal.waist().y.value_unsafe,
+    spdc.idler.waist().y.value_unsafe,
     spdc.pump.waist().x.value_unsafe,
     spdc.pump.waist().y.value_unsafe,
     spdc.signal_waist_position.value_unsafe,
@@ -897,6 +899,273 @@ fn k_integrand(ctx: &mut Ctx, spdc: &SPDC, v: &View, ws: f64, wi: f64, tag: &str
   }
 }
 
+/// The rate / singles / range-route clauses of C06 over ONE range of the setup and the exchanged range of its twin, in one of the
+/// representations a range can be given in and with each axis written low-to-high or high-to-low (independently).
+///  * `fs`: `FrequencySpace::new(xs, yi)`, twin `FrequencySpace::new(yi, xs)` (also built as `Steps2D(..).into()` and through
+///    `with_resolution`);
+///  * `ws`: a `WavelengthSpace` (an axis written long-to-short is high-to-low in frequency and vice versa), twin = transposed;
+///  * `sd`: a `SumDiffFrequencySpace` (s = (ωi+ωs)/2, d = (ωi−ωs)/2).  The exchange is d → −d.  `counts_*` convert the range to the
+///    frequency rectangle `as_frequency_space()`, whose transpose is the rectangle of `((s0,s1,ny), (−d1,−d0,nx))`; the `*_range`
+///    functions iterate the rotated grid itself, point (k,l) ↔ point (k,l) of `((s0,s1,nx), (−d0,−d1,ny))`.
+fn rates_case(ctx: &mut Ctx, spdc: &SPDC, swapped: &SPDC, desc: &str) {
+  let shapes: &[(usize, usize)] =
+    if ctx.thorough { &[(5, 5), (5, 5), (4, 6), (6, 4), (3, 7), (5, 4)] } else { &[(3, 3), (3, 3), (3, 3), (2, 4), (4, 2), (3, 2), (2, 3)] };
+  let (nx, ny) = *ctx.rng.pick(shapes);
+  // bit 0: first axis high-to-low, bit 1: second axis high-to-low
+  let orient = ctx.rng.below(4);
+  let rep = ctx.rng.below(10);
+  // which half of the singles clause: idler singles of S vs signal singles of the twin, or signal singles of S vs idler singles of the twin
+  let dir_b = ctx.rng.coin();
+  // the three rates through SPDC::efficiencies(...).{coincidences, signal_singles, idler_singles} instead of counts_*
+  let via_eff = ctx.rng.below(6) == 0;
+  let flip = |a: (f64, f64, usize), rev: bool| if rev { (a.1, a.0, a.2) } else { a };
+  let otag = ["asc-asc", "desc-asc", "asc-desc", "desc-desc"][orient];
+  let route = RatesRoute { dir_b, via_eff };
+  ctx.count(&format!("c06/rates/orientation/{}", otag));
+  ctx.count(&format!("c06/rates/shape/{}", if nx == ny { "square" } else { "non-square" }));
+  ctx.count(if via_eff { "c06/rates/route/efficiencies" } else { "c06/rates/route/counts" });
+  ctx.count(if dir_b { "c06/rates/singles/signal-vs-twin-idler" } else { "c06/rates/singles/idler-vs-twin-signal" });
+  let fw = |a: (f64, f64, usize)| (w(a.0), w(a.1), a.2);
+  if rep == 9 {
+    // sum / difference axes around the centre
+    let ws0 = raw_w(spdc.signal.frequency());
+    let wi0 = raw_w(spdc.idler.frequency());
+    let sigma = raw_w(fwhm_to_spectral_width(spdc.pump.vacuum_wavelength(), spdc.pump_bandwidth));
+    let (sc, dc) = (0.5 * (wi0 + ws0), 0.5 * (wi0 - ws0));
+    let a = sigma * ctx.rng.range(0.25, 1.0);
+    let b = sigma * ctx.rng.range(0.5, 2.0);
+    let sx = flip((sc - a, sc + 0.9 * a, nx), orient & 1 == 1);
+    let dy = flip((dc - 0.8 * b, dc + b, ny), orient & 2 == 2);
+    ctx.count("c06/rates/representation/sum-diff");
+    let det = format!(
+      "rep=sd orient={} route={} s=({:.17e},{:.17e},{}) d=({:.17e},{:.17e},{}) divs=10 {}",
+      otag, route.tag(), sx.0, sx.1, sx.2, dy.0, dy.1, dy.2, desc
+    );
+    let r = SumDiffFrequencySpace::new(fw(sx), fw(dy));
+    let r_sw = SumDiffFrequencySpace::new(fw((sx.0, sx.1, ny)), fw((-dy.1, -dy.0, nx)));
+    let r_sw_spec = SumDiffFrequencySpace::new(fw(sx), fw((-dy.0, -dy.1, ny)));
+    rates_block(ctx, spdc, swapped, r, r_sw, r_sw_spec, false, false, nx, ny, route, &det);
+    return;
+  }
+  let (xs, yi) = small_grid(&mut ctx.rng, spdc, 0);
+  let xs = flip((xs.0, xs.1, nx), orient & 1 == 1);
+  let yi = flip((yi.0, yi.1, ny), orient & 2 == 2);
+  let rtag = match rep {
+    5 => "steps2d",
+    6 if nx == ny => "resolution",
+    7 | 8 => "ws",
+    _ => "fs",
+  };
+  ctx.count(&format!("c06/rates/representation/{}", rtag));
+  let det = format!(
+    "rep={} orient={} route={} xs=({:.17e},{:.17e},{}) yi=({:.17e},{:.17e},{}) divs=10 {}",
+    rtag, otag, route.tag(), xs.0, xs.1, xs.2, yi.0, yi.1, yi.2, desc
+  );
+  match rtag {
+    "ws" => {
+      // FrequencySpace::from_wavelength_space maps the wavelength axis (l0, l1) to the frequency axis (ω(l1), ω(l0))
+      let lw = |a: (f64, f64, usize)| (frequency_to_vacuum_wavelength(w(a.1)), frequency_to_vacuum_wavelength(w(a.0)), a.2);
+      let r = WavelengthSpace::new(lw(xs), lw(yi));
+      let r_sw = WavelengthSpace::new(lw(yi), lw(xs));
+      rates_block(ctx, spdc, swapped, r, r_sw, r_sw, true, false, nx, ny, route, &det);
+    }
+    "steps2d" => {
+      let r: FrequencySpace = Steps2D(fw(xs), fw(yi)).into();
+      let r_sw: FrequencySpace = FrequencySpace::from(Steps2D::new(fw(yi), fw(xs)));
+      rates_block(ctx, spdc, swapped, r, r_sw, r_sw, true, true, nx, ny, route, &det);
+    }
+    "resolution" => {
+      let r = FrequencySpace::new(fw((xs.0, xs.1, 97)), fw((yi.0, yi.1, 1))).with_resolution(nx);
+      let mut r_sw = FrequencySpace::new(fw((yi.0, yi.1, 2)), fw((xs.0, xs.1, 50)));
+      r_sw.set_resolution(nx);
+      rates_block(ctx, spdc, swapped, r, r_sw, r_sw, true, true, nx, ny, route, &det);
+    }
+    _ => {
+      let r = FrequencySpace::new(fw(xs), fw(yi));
+      let r_sw = FrequencySpace::new(fw(yi), fw(xs));
+      rates_block(ctx, spdc, swapped, r, r_sw, r_sw, true, true, nx, ny, route, &det);
+    }
+  }
+}
+
+#[derive(Clone, Copy)]
+struct RatesRoute {
+  dir_b: bool,
+  via_eff: bool,
+}
+impl RatesRoute {
+  fn tag(&self) -> &'static str {
+    match (self.via_eff, self.dir_b) {
+      (false, false) => "counts/idler-vs-twin-signal",
+      (false, true) => "counts/signal-vs-twin-idler",
+      (true, false) => "efficiencies/idler-vs-twin-signal",
+      (true, true) => "efficiencies/signal-vs-twin-idler",
+    }
+  }
+}
+
+/// `r`: the range of S; `r_sw`: the exchanged range for the rates; `r_sw_spec`: the exchanged range for the `*_range` functions, whose
+/// point (k,l) ↔ index k·ny+l (`transposed`) or l·nx+k; `fs_like`: `r` IS the frequency rectangle the rates are summed over, so the
+/// singles spectra over `r` are the summands of the singles rates (K `counts`).
+#[allow(clippy::too_many_arguments)]
+fn rates_block<T>(ctx: &mut Ctx, spdc: &SPDC, swapped: &SPDC, r: T, r_sw: T, r_sw_spec: T, transposed: bool, fs_like: bool, nx: usize, ny: usize, route: RatesRoute, det: &str)
+where
+  T: Into<FrequencySpace> + IntoSignalIdlerIterator + Copy,
+{
+  let sdivs = 10usize;
+  let sinteg = Integrator::Simpson { divs: sdivs };
+  let idx = |k: usize, l: usize| l * nx + k;
+  let idx_sw = |k: usize, l: usize| if transposed { k * ny + l } else { l * nx + k };
+  let raw_j = |v: Vec<spdcalc::JSIUnits<f64>>| -> Vec<f64> { v.iter().map(|x| x.value_unsafe).collect() };
+  let (s1, s2) = (spdc.clone(), swapped.clone());
+  let res = guard(move || {
+    let (cc, cc_sw, ra, rb) = if route.via_eff {
+      let e1 = s1.efficiencies(r, sinteg);
+      let e2 = s2.efficiencies(r_sw, sinteg);
+      if route.dir_b {
+        (e1.coincidences.value_unsafe, e2.coincidences.value_unsafe, e1.signal_singles.value_unsafe, e2.idler_singles.value_unsafe)
+      } else {
+        (e1.coincidences.value_unsafe, e2.coincidences.value_unsafe, e1.idler_singles.value_unsafe, e2.signal_singles.value_unsafe)
+      }
+    } else {
+      let cc = s1.counts_coincidences(r, sinteg).value_unsafe;
+      let cc_sw = s2.counts_coincidences(r_sw, sinteg).value_unsafe;
+      if route.dir_b {
+        (cc, cc_sw, s1.counts_singles_signal(r, sinteg).value_unsafe, s2.counts_singles_idler(r_sw, sinteg).value_unsafe)
+      } else {
+        (cc, cc_sw, s1.counts_singles_idler(r, sinteg).value_unsafe, s2.counts_singles_signal(r_sw, sinteg).value_unsafe)
+      }
+    };
+    let j1 = s1.joint_spectrum(sinteg);
+    let j2 = s2.joint_spectrum(sinteg);
+    let (spec_a, spec_b) = if route.dir_b {
+      (raw_j(j1.jsi_singles_range(r)), raw_j(j2.jsi_singles_idler_range(r_sw_spec)))
+    } else {
+      (raw_j(j1.jsi_singles_idler_range(r)), raw_j(j2.jsi_singles_range(r_sw_spec)))
+    };
+    let corr = spdcalc::get_counts_correction(&s1);
+    let corr_sw = spdcalc::get_counts_correction(&s2);
+    // the amplitude / intensity clause through the *_range route
+    let ja = j1.jsa_range(r);
+    let jb = j2.jsa_range(r_sw_spec);
+    let ia = raw_j(j1.jsi_range(r));
+    let ib = raw_j(j2.jsi_range(r_sw_spec));
+    // the frequency rectangles the rates are summed over, and the coincidence spectrum on them
+    let f1: FrequencySpace = r.into();
+    let f2: FrequencySpace = r_sw.into();
+    let jf1 = raw_j(j1.jsi_range(f1));
+    let jf2 = raw_j(j2.jsi_range(f2));
+    let pts: Vec<(f64, f64)> = r.into_signal_idler_iterator().map(|(a, b)| (raw_w(a), raw_w(b))).collect();
+    (cc, cc_sw, ra, rb, spec_a, spec_b, corr, corr_sw, ja, jb, ia, ib, f1, f2, jf1, jf2, pts)
+  });
+  let (cc, cc_sw, ra, rb, spec_a, spec_b, corr, corr_sw, ja, jb, ia, ib, f1, f2, jf1, jf2, pts) = match res {
+    None => {
+      ctx.s("C06.rates", false, "rates/exchange/panic", det);
+      return;
+    }
+    Some(x) => x,
+  };
+  let n_pts = nx * ny;
+  if [ja.len(), jb.len(), ia.len(), ib.len(), spec_a.len(), spec_b.len(), pts.len(), jf1.len(), jf2.len()].iter().any(|&m| m != n_pts) {
+    ctx.s("C06.rates", false, "rates/exchange/range-length", &format!("expected={} got={} {}", n_pts, ja.len(), det));
+    return;
+  }
+  // jsa_range / jsi_range of S over the range vs of swap(S) over the exchanged range
+  {
+    let mut worst = 0.0f64;
+    let mut worst_i = 0.0f64;
+    let mut judged = 0;
+    for k in 0..nx {
+      for l in 0..ny {
+        let (a, b) = (ja[idx(k, l)], jb[idx_sw(k, l)]);
+        let (p, q) = (ia[idx(k, l)], ib[idx_sw(k, l)]);
+        if !(a.norm().is_finite() && b.norm().is_finite()) || a.norm() < 1e-290 {
+          continue;
+        }
+        let (ws, wi) = pts[idx(k, l)];
+        let kappa = match (pm_abs_c06(spdc, ws, wi, sinteg), simpson_abs_scale(spdc, ws, wi, sdivs)) {
+          (Some(pv), Some(sc)) if pv > 0.0 => sc / pv,
+          _ => f64::INFINITY,
+        };
+        if kappa > KAPPA_MAX {
+          continue;
+        }
+        judged += 1;
+        worst = worst.max(rel_err_c(a, b));
+        if p.is_finite() && q.is_finite() && p.abs() > 1e-290 {
+          worst_i = worst_i.max(rel_err(p, q));
+        }
+      }
+    }
+    ctx.s("C06.jsa", worst <= 1e-6, "jsa/exchange/range-route", &format!("relerr={:e} judged={} {}", worst, judged, det));
+    ctx.s("C06.jsi", worst_i <= 2.1e-6, "jsi/exchange/range-route", &format!("relerr={:e} judged={} {}", worst_i, judged, det));
+  }
+  // idler (signal) singles spectrum of S at (ws_k, wi_l) = signal (idler) singles spectrum of swap(S) at (wi_l, ws_k)
+  let mut worst = 0.0f64;
+  let mut nonzero = 0;
+  for k in 0..nx {
+    for l in 0..ny {
+      let a = spec_a[idx(k, l)];
+      let b = spec_b[idx_sw(k, l)];
+      if a != 0.0 || b != 0.0 {
+        nonzero += 1;
+      }
+      if a.is_finite() && b.is_finite() {
+        worst = worst.max(rel_err(a, b));
+      }
+    }
+  }
+  ctx.count(if nonzero > 0 { "c06/singles-spectrum/nonzero" } else { "c06/singles-spectrum/all-zero" });
+  ctx.s(
+    "C06.idler_singles_spectrum",
+    worst <= 2.1e-6,
+    "singles-spectrum/exchange",
+    &format!("relerr={:e} nonzero={} {}", worst, nonzero, det),
+  );
+  // rates: invariant under the exchange; a deviation that is exactly the ratio of the two setups' `get_counts_correction` is
+  // tagged explained=1 (the spectra agree, the scalar correction factor is not exchange symmetric)
+  let ratio_corr = corr / corr_sw;
+  let e_cc = rel_err(cc, cc_sw);
+  let fin = cc.is_finite() && cc_sw.is_finite();
+  let expl = fin && rel_err(cc, cc_sw * ratio_corr) <= 1e-9;
+  let ok = !fin || (cc == 0.0 && cc_sw == 0.0) || e_cc <= 2.1e-6;
+  if fin && cc != 0.0 {
+    ctx.count(if cc < 0.0 { "c06/rates/coincidences/negative" } else { "c06/rates/coincidences/positive" });
+  }
+  ctx.s(
+    "C06.rates",
+    ok,
+    if ok { "rates/exchange" } else { "rates/exchange/coincidences" },
+    &format!("relerr={:e} explained={} corr_ratio={:.12} cc={:e} cc_swapped={:e} {}", e_cc, expl as u8, ratio_corr, cc, cc_sw, det),
+  );
+  let e_s = rel_err(ra, rb);
+  let fin_s = ra.is_finite() && rb.is_finite();
+  let expl = fin_s && rel_err(ra, rb * ratio_corr) <= 1e-9;
+  let ok = !fin_s || (ra == 0.0 && rb == 0.0) || e_s <= 2.1e-6;
+  let (na, nb) = if route.dir_b { ("signal_singles", "idler_singles_swapped") } else { ("idler_singles", "signal_singles_swapped") };
+  ctx.s(
+    "C06.rates",
+    ok,
+    if ok { "rates/exchange" } else if route.dir_b { "rates/exchange/signal-singles" } else { "rates/exchange/idler-singles" },
+    &format!("relerr={:e} explained={} corr_ratio={:.12} {}={:e} {}={:e} {}", e_s, expl as u8, ratio_corr, na, ra, nb, rb, det),
+  );
+  // K `counts`: the rate is correction · Σ spectrum · dωs·dωi over the frequency rectangle, with the SIGNED steps of the
+  // rectangle as given (spectra over the rectangle are inputs: layered)
+  let grid = |f: FrequencySpace| {
+    let st = f.as_steps();
+    format!("{} {} {} {} {} {}", fl(raw_w(st.0 .0)), fl(raw_w(st.0 .1)), st.0 .2, fl(raw_w(st.1 .0)), fl(raw_w(st.1 .1)), st.1 .2)
+  };
+  let allfin = |v: &[f64]| v.iter().all(|x| x.is_finite());
+  if fin && corr.is_finite() && corr_sw.is_finite() && allfin(&jf1) && allfin(&jf2) {
+    ctx.k("counts", &format!("{} {} | {}", fl(corr), grid(f1), fls(&jf1)), &fl(cc));
+    ctx.k("counts", &format!("{} {} | {}", fl(corr_sw), grid(f2), fls(&jf2)), &fl(cc_sw));
+  }
+  if fs_like && fin_s && corr.is_finite() && corr_sw.is_finite() && allfin(&spec_a) && allfin(&spec_b) {
+    ctx.k("counts", &format!("{} {} | {}", fl(corr), grid(f1), fls(&spec_a)), &fl(ra));
+    ctx.k("counts", &format!("{} {} | {}", fl(corr_sw), grid(f2), fls(&spec_b)), &fl(rb));
+  }
+}
+
 /// the statement of C06 on the real code
 fn c06_cases(ctx: &mut Ctx) {
   let mut worst_e = 0.0f64;
@@ -918,6 +1187,42 @@ fn c06_cases(ctx: &mut Ctx) {
       }
     };
     let mut spdc = spdc;
+    // elliptic collection modes (`BeamWaist { x, y }` with x ≠ y: public fields; `BeamWaist::new_elliptic` with the crate's
+    // `elliptic` feature) on a quarter of the generated setups: one beam, both with different ellipses, or the same ellipse
+    // turned by 90° (equal areas).  The exchange must carry each beam's (x, y) over as they are.
+    let mut elliptic = "";
+    if !written {
+      let ell = |r: &mut Rng, b: BeamWaist| -> BeamWaist {
+        let q = if r.coin() { r.range(0.4, 0.9) } else { r.range(1.1, 2.5) };
+        BeamWaist { x: b.x, y: b.x * q }
+      };
+      match ctx.rng.below(16) {
+        0 => {
+          let wv = ell(&mut ctx.rng, spdc.idler.waist());
+          spdc.idler.set_waist(wv);
+          elliptic = "idler";
+        }
+        1 => {
+          let wv = ell(&mut ctx.rng, spdc.signal.waist());
+          spdc.signal.set_waist(wv);
+          elliptic = "signal";
+        }
+        2 => {
+          let wv = ell(&mut ctx.rng, spdc.idler.waist());
+          spdc.idler.set_waist(wv);
+          let wv = ell(&mut ctx.rng, spdc.signal.waist());
+          spdc.signal.set_waist(wv);
+          elliptic = "both";
+        }
+        3 => {
+          let wv = ell(&mut ctx.rng, spdc.signal.waist());
+          spdc.signal.set_waist(wv);
+          spdc.idler.set_waist(BeamWaist { x: wv.y, y: wv.x });
+          elliptic = "turned";
+        }
+        _ => {}
+      }
+    }
     // 'copied value' theme on 30 % of the generated setups
     let mut copied: Vec<&'static str> = vec![];
     if written {
@@ -993,6 +1298,11 @@ fn c06_cases(ctx: &mut Ctx) {
     made += 1;
     count_setup(ctx, "c06", &spdc);
     let desc = if copied.is_empty() { describe(&spdc) } else { format!("copied={} {}", copied.join("+"), describe(&spdc)) };
+    let elliptic_now = spdc.signal.waist().x != spdc.signal.waist().y || spdc.idler.waist().x != spdc.idler.waist().y;
+    let desc = if elliptic.is_empty() { desc } else { format!("elliptic={} {}", elliptic, desc) };
+    if elliptic_now {
+      ctx.count(&format!("c06/elliptic/{}", elliptic));
+    }
     for t in copied.iter() {
       ctx.count(&format!("c06/copied/{}", t));
     }
@@ -1038,7 +1348,7 @@ fn c06_cases(ctx: &mut Ctx) {
         }
         _ => (ws, wi),
       };
-      if !copied.is_empty() && pair < 2 {
+      if (!copied.is_empty() || elliptic_now) && pair < 2 {
         // correspondence of the integrand on these setups, for the setup and its twin
         k_integrand(ctx, &spdc, &v, ws, wi, "c06");
         k_integrand(ctx, &swapped, &vs, wi, ws, "c06");
@@ -1116,118 +1426,11 @@ fn c06_cases(ctx: &mut Ctx) {
     }
     swap_case(ctx, &spdc);
 
-    // rates and singles over a small grid (every other setup: they cost 2-D integrals)
+    // rates and singles over a small grid (every other setup: they cost 2-D integrals): every representation of the range
+    // (FrequencySpace::new, Steps2D → From, with_resolution, WavelengthSpace, SumDiffFrequencySpace), every orientation of the
+    // two axes (low-to-high / high-to-low, independently), square and non-square shapes
     if made % 2 == 0 {
-      let n = if ctx.thorough { 5 } else { 3 };
-      let (xs, yi) = small_grid(&mut ctx.rng, &spdc, n);
-      let range = FrequencySpace::new((w(xs.0), w(xs.1), xs.2), (w(yi.0), w(yi.1), yi.2));
-      let range_sw = FrequencySpace::new((w(yi.0), w(yi.1), yi.2), (w(xs.0), w(xs.1), xs.2));
-      let sdivs = 10usize;
-      let sinteg = Integrator::Simpson { divs: sdivs };
-      let det = format!(
-        "xs=({:.17e},{:.17e},{}) yi=({:.17e},{:.17e},{}) divs={} {}",
-        xs.0, xs.1, xs.2, yi.0, yi.1, yi.2, sdivs, desc
-      );
-      let (s1, s2) = (spdc.clone(), swapped.clone());
-      let r = guard(move || {
-        let cc = s1.counts_coincidences(range, sinteg).value_unsafe;
-        let cc_sw = s2.counts_coincidences(range_sw, sinteg).value_unsafe;
-        let si = s1.counts_singles_idler(range, sinteg).value_unsafe;
-        let ss_sw = s2.counts_singles_signal(range_sw, sinteg).value_unsafe;
-        let j1 = s1.joint_spectrum(sinteg);
-        let j2 = s2.joint_spectrum(sinteg);
-        let spec_i: Vec<f64> = j1.jsi_singles_idler_range(range).iter().map(|x| x.value_unsafe).collect();
-        let spec_s_sw: Vec<f64> = j2.jsi_singles_range(range_sw).iter().map(|x| x.value_unsafe).collect();
-        let corr = spdcalc::get_counts_correction(&s1);
-        let corr_sw = spdcalc::get_counts_correction(&s2);
-        // the same statement through the *_range route
-        let ja = j1.jsa_range(range);
-        let jb = j2.jsa_range(range_sw);
-        let ia: Vec<f64> = j1.jsi_range(range).iter().map(|x| x.value_unsafe).collect();
-        let ib: Vec<f64> = j2.jsi_range(range_sw).iter().map(|x| x.value_unsafe).collect();
-        (cc, cc_sw, si, ss_sw, spec_i, spec_s_sw, corr, corr_sw, ja, jb, ia, ib)
-      });
-      match r {
-        None => ctx.s("C06.rates", false, "rates/exchange/panic", &det),
-        Some((cc, cc_sw, si, ss_sw, spec_i, spec_s_sw, corr, corr_sw, ja, jb, ia, ib)) => {
-          // jsa_range / jsi_range of S over (ws, wi) vs of swap(S) over (wi, ws)
-          {
-            let xs_v: Vec<f64> = (0..n).map(|k| if n > 1 { (xs.0 * ((n - 1 - k) as f64) + xs.1 * (k as f64)) / ((n - 1) as f64) } else { xs.0 }).collect();
-            let yi_v: Vec<f64> = (0..n).map(|l| if n > 1 { (yi.0 * ((n - 1 - l) as f64) + yi.1 * (l as f64)) / ((n - 1) as f64) } else { yi.0 }).collect();
-            let mut worst = 0.0f64;
-            let mut worst_i = 0.0f64;
-            let mut judged = 0;
-            for k in 0..n {
-              for l in 0..n {
-                let (a, b) = (ja[l * n + k], jb[k * n + l]);
-                let (p, q) = (ia[l * n + k], ib[k * n + l]);
-                if !(a.norm().is_finite() && b.norm().is_finite()) || a.norm() < 1e-290 {
-                  continue;
-                }
-                let kappa = match (pm_abs_c06(&spdc, xs_v[k], yi_v[l], sinteg), simpson_abs_scale(&spdc, xs_v[k], yi_v[l], sdivs)) {
-                  (Some(pv), Some(sc)) if pv > 0.0 => sc / pv,
-                  _ => f64::INFINITY,
-                };
-                if kappa > KAPPA_MAX {
-                  continue;
-                }
-                judged += 1;
-                worst = worst.max(rel_err_c(a, b));
-                if p.is_finite() && q.is_finite() && p.abs() > 1e-290 {
-                  worst_i = worst_i.max(rel_err(p, q));
-                }
-              }
-            }
-            ctx.s("C06.jsa", worst <= 1e-6, "jsa/exchange/range-route", &format!("relerr={:e} judged={} {}", worst, judged, det));
-            ctx.s("C06.jsi", worst_i <= 2.1e-6, "jsi/exchange/range-route", &format!("relerr={:e} judged={} {}", worst_i, judged, det));
-          }
-          // idler singles spectrum of S at (ws_k, wi_l) = signal singles spectrum of swap(S) at (wi_l, ws_k)
-          let mut worst = 0.0f64;
-          let mut nonzero = 0;
-          for k in 0..n {
-            for l in 0..n {
-              // range: x = ws index k (fast), y = wi index l ; range_sw: x = wi index l (fast), y = ws index k
-              let a = spec_i[l * n + k];
-              let b = spec_s_sw[k * n + l];
-              if a != 0.0 || b != 0.0 {
-                nonzero += 1;
-              }
-              if a.is_finite() && b.is_finite() {
-                worst = worst.max(rel_err(a, b));
-              }
-            }
-          }
-          ctx.count(if nonzero > 0 { "c06/singles-spectrum/nonzero" } else { "c06/singles-spectrum/all-zero" });
-          ctx.s(
-            "C06.idler_singles_spectrum",
-            worst <= 2.1e-6,
-            "singles-spectrum/exchange",
-            &format!("relerr={:e} nonzero={} {}", worst, nonzero, det),
-          );
-          // rates: invariant under the exchange; a deviation that is exactly the ratio of the two
-          // setups' `get_counts_correction` is tagged explained=1 (the spectra agree, the scalar
-          // correction factor is not exchange symmetric)
-          let ratio_corr = corr / corr_sw;
-          let e_cc = rel_err(cc, cc_sw);
-          let fin = cc.is_finite() && cc_sw.is_finite();
-          let expl = fin && rel_err(cc, cc_sw * ratio_corr) <= 1e-9;
-          ctx.s(
-            "C06.rates",
-            !fin || cc == 0.0 || e_cc <= 2.1e-6,
-            if !fin || cc == 0.0 || e_cc <= 2.1e-6 { "rates/exchange" } else { "rates/exchange/coincidences" },
-            &format!("relerr={:e} explained={} corr_ratio={:.12} cc={:e} cc_swapped={:e} {}", e_cc, expl as u8, ratio_corr, cc, cc_sw, det),
-          );
-          let e_si = rel_err(si, ss_sw);
-          let fin = si.is_finite() && ss_sw.is_finite();
-          let expl = fin && rel_err(si, ss_sw * ratio_corr) <= 1e-9;
-          ctx.s(
-            "C06.rates",
-            !fin || si == 0.0 || e_si <= 2.1e-6,
-            if !fin || si == 0.0 || e_si <= 2.1e-6 { "rates/exchange" } else { "rates/exchange/idler-singles" },
-            &format!("relerr={:e} explained={} corr_ratio={:.12} idler_singles={:e} signal_singles_swapped={:e} {}", e_si, expl as u8, ratio_corr, si, ss_sw, det),
-          );
-        }
-      }
+      rates_case(ctx, &spdc, &swapped, &desc);
     }
   }
   ctx.dist.insert("c06/max-relerr-jsa-times-1e15".to_string(), (worst_e * 1e15) as u64);
@@ -2336,6 +2539,89 @@ fn retune_crystal_theta(spdc: &SPDC) -> Option<SPDC> {
   None
 }
 
+/// grating of the period 2π/Δk_z (Δk_z of the bare crystal at the centre frequencies, beams as they are) that brings the centre of a
+/// collinear setup back to phase matching — the harness's own rematch for geometries the crate's optimum calls would rebuild
+fn rematch_by_period(spdc: &SPDC) -> Option<SPDC> {
+  let ws0 = raw_w(spdc.signal.frequency());
+  let wi0 = raw_w(spdc.idler.frequency());
+  let mut bare = spdc.clone();
+  bare.pp = PeriodicPoling::Off;
+  let x = half_dkz_l(&bare, ws0, wi0)?;
+  let dkz = 2.0 * x / spdc.crystal_setup.length.value_unsafe;
+  if !dkz.is_finite() || dkz == 0.0 {
+    return None;
+  }
+  for sgn in [1.0, -1.0] {
+    let mut t = spdc.clone();
+    t.pp = PeriodicPoling::new(sgn * std::f64::consts::TAU / dkz * M, Apodization::Off);
+    if matches!(half_dkz_l(&t, ws0, wi0), Some(v) if v.abs() < 0.5) {
+      return Some(t);
+    }
+  }
+  None
+}
+
+/// Hand-assembled geometries: pieces of a setup's state that are redundant for the phase-matching amplitude are edited one at a
+/// time after the crate's optimum calls have built the setup, so that they DISAGREE — `crystal_setup.counter_propagation` vs the
+/// beams' own directions (the flag only steers the optimum idler), `crystal_setup.pm_type` vs the beams' own polarisations, the
+/// azimuth of a beam on the axis, a beam turned round by hand (θ → 180° − θ; phase matching restored by a harness-side grating).
+/// All of them are collinear setups of the statement; the amplitude is a function of the beams.
+fn hand_edit(ctx: &mut Ctx, spdc: &mut SPDC) -> Vec<&'static str> {
+  let mut tags: Vec<&'static str> = vec![];
+  let pi = std::f64::consts::PI;
+  // the flag alone
+  if ctx.rng.below(5) == 0 {
+    spdc.crystal_setup.counter_propagation = !spdc.crystal_setup.counter_propagation;
+    tags.push("flag-flipped");
+  }
+  // the label alone
+  if ctx.rng.below(10) == 0 {
+    let other = *ctx.rng.pick(&PMTYPES);
+    if other != spdc.crystal_setup.pm_type {
+      spdc.crystal_setup.pm_type = other;
+      tags.push("label-edited");
+    }
+  }
+  // azimuth of an on-axis beam (θ = 0 or 180°: the direction does not depend on φ)
+  if ctx.rng.below(8) == 0 {
+    let phi = if ctx.rng.coin() { ctx.rng.range(0.0, 360.0) } else { *ctx.rng.pick(&[0.0, 90.0, 180.0, 270.0]) };
+    if ctx.rng.coin() {
+      let th = spdc.idler.theta_internal();
+      spdc.idler.set_angles(phi * DEG, th);
+      tags.push("idler-azimuth");
+    } else {
+      let th = spdc.signal.theta_internal();
+      spdc.signal.set_angles(phi * DEG, th);
+      tags.push("signal-azimuth");
+    }
+  }
+  // a beam turned round by hand (poled setups: the grating is re-chosen by the harness; the flag stays as it was)
+  if spdc.pp != PeriodicPoling::Off && ctx.rng.below(8) == 0 {
+    let mut t = spdc.clone();
+    let which = ctx.rng.below(5);
+    if which <= 2 {
+      let th = pi - t.idler.theta_internal().value_unsafe;
+      t.idler.set_angles(*ctx.rng.pick(&[0.0, 180.0]) * DEG, th * RAD);
+    }
+    if which >= 2 {
+      let th = pi - t.signal.theta_internal().value_unsafe;
+      t.signal.set_angles(*ctx.rng.pick(&[0.0, 180.0]) * DEG, th * RAD);
+    }
+    match rematch_by_period(&t) {
+      Some(r) => {
+        *spdc = r;
+        tags.push(match which {
+          0 | 1 => "idler-turned",
+          2 => "both-turned",
+          _ => "signal-turned",
+        });
+      }
+      None => ctx.count("c05/hand-edit/turned-rematch-failed"),
+    }
+  }
+  tags
+}
+
 fn c05_cases(ctx: &mut Ctx) {
   let opts_co = GenOpts { plane_wave: true, phase_matched: true, counter: None, tilted_biaxial: false, unpoled: false };
   let opts_sb = GenOpts { plane_wave: true, phase_matched: true, counter: Some(true), tilted_biaxial: false, unpoled: false };
@@ -2381,7 +2667,15 @@ fn c05_cases(ctx: &mut Ctx) {
       }
       ctx.count(if lam.abs() > l { "c05/long-period/longer-than-crystal" } else { "c05/long-period/shorter-than-crystal" });
     }
-    let v = view(&spdc).unwrap();
+    // hand-assembled geometries whose redundant pieces of state disagree
+    let edited = hand_edit(ctx, &mut spdc);
+    let v = match view(&spdc) {
+      Some(v) if v.all_finite() => v,
+      _ => {
+        ctx.count("c05/hand-edit/view-unavailable");
+        continue;
+      }
+    };
     let ws0 = raw_w(spdc.signal.frequency());
     let wi0 = raw_w(spdc.idler.frequency());
     // phase matched at the centre?  (the crate's optimum call may return a non-matching setup: C04)
@@ -2436,7 +2730,12 @@ fn c05_cases(ctx: &mut Ctx) {
       Integrator::ClenshawCurtis { .. } => "clenshaw",
       Integrator::GaussKonrod { .. } => "gk",
     };
-    let desc = describe(&spdc);
+    let desc = format!(
+      "edited={} flag={} {}",
+      if edited.is_empty() { "none".to_string() } else { edited.join("+") },
+      spdc.crystal_setup.counter_propagation as u8,
+      describe(&spdc)
+    );
     // ρ of the statement, independent of the accessor the integrand itself reads
     let rho = match walkoff_independent(&spdc) {
       Some(r) => r,
@@ -2516,6 +2815,13 @@ fn c05_cases(ctx: &mut Ctx) {
       }
     ));
     ctx.count(&format!("c05/integrator/{}", iname));
+    for t in edited.iter() {
+      ctx.count(&format!("c05/hand-edit/{}", t));
+    }
+    {
+      let opposite = (spdc.signal.direction().z < 0.0) != (spdc.idler.direction().z < 0.0);
+      ctx.count(if opposite == spdc.crystal_setup.counter_propagation { "c05/flag/agrees-with-beams" } else { "c05/flag/disagrees-with-beams" });
+    }
     ctx.count(if x == 0.0 { "c05/walkoff/none" } else if x <= C05_X_MAX { "c05/walkoff/negligible" } else { "c05/walkoff/appreciable" });
 
     // ---- peak value vs (4/Σ) √π erf(x)/(2x)
